@@ -661,6 +661,8 @@ def run(ctx: vlib.Ctx):
         "shared with C03); stdlib primitives (int/float/str, fromisoformat, UUID, Decimal, ip_*, Enum(), decodebytes ...) are "
         "oracles returning a value or the exception class CPython raises - finite tables from the real leaf decoders in case "
         "files, uninterpreted in theorems; compared with /repo on exception class + attributes + __context__ + value",
+        "ExcHier.builtin_bases: CPython's builtin exception hierarchy (fixed table); tools/kernels/k16_handlers.py: extraction of "
+        "the emitted `except` texts and of exceptions.py's class bases (fail-closed AST reader)",
         "discriminator registry: modelled as the lazily filled tag->variant map threaded through call histories "
         "(Errs.discr_call / discr_history); variant tags are strings; registration order = iter_all_subclasses walk "
         "(depth first, definition order) as computed by the harness; compared with /repo on fresh hierarchies per history",
@@ -677,14 +679,17 @@ def run(ctx: vlib.Ctx):
     ]
     ctx.theorems("props/C05_errors.vo", THEOREMS)
     ctx.theorems("props/C05_typed.vo", TYPED_THEOREMS)
+    # (T) kernel K16: emitted handler classes + exceptions.py hierarchy, re-translated from /repo on every run
+    ctx.theorems("props/C05_handlers.vo", ["C05_k16_handlers_as_modelled", "C05_k16_documented_pass_through",
+                                           "C05_k16_model_patterns"], kernels=["K16"])
     if not ctx.quick():
         # second opinion: the independent checker re-validates the compiled property files and their cone
         rc, log, secs = vlib.run(["timeout", "1500", "coqchk", "-silent", "-o", "-Q", "theories", "Verif", "-Q", "gen", "VerifGen",
-                                  "-Q", "props", "VerifProps", "VerifProps.C05_errors", "VerifProps.C05_typed"],
+                                  "-Q", "props", "VerifProps", "VerifProps.C05_errors", "VerifProps.C05_typed", "VerifProps.C05_handlers"],
                                  cwd=vlib.COQ, timeout=1530)
         ok = rc == 0 and "Axioms: <none>" in log
-        ctx.obligation("coqchk VerifProps.C05_errors VerifProps.C05_typed (Axioms: <none>)", ok, log[-400:])
-        ctx.trusted.append("coqchk -o on C05_errors + C05_typed: " + ("Axioms: <none>" if ok else "FAILED " + log[-200:]))
+        ctx.obligation("coqchk VerifProps.C05_errors C05_typed C05_handlers (Axioms: <none>)", ok, log[-400:])
+        ctx.trusted.append("coqchk -o on C05_errors + C05_typed + C05_handlers: " + ("Axioms: <none>" if ok else "FAILED " + log[-200:]))
         if not ok:
             ctx.not_shown("coqchk VerifProps.C05_errors/C05_typed", log[-800:])
 
